@@ -229,6 +229,7 @@ fn main() {
     if std::env::var("H_DEBUG").is_err() { std::panic::set_hook(Box::new(|_| {})); }
     let reqs: Vec<String> = if cli.mode == "replay" { read_requests(cli.file.as_deref().unwrap()) } else {
         let mut r = Rng::new(cli.seed);
+        r = Rng(r.next()); // decorrelate: hcommon streams of consecutive seeds are one draw apart
         (0..cli.n).map(|_| gen_req(&mut r)).collect()
     };
     for req in reqs {
